@@ -75,8 +75,12 @@ func New(prop, tier, level string, seed int64, outDir string) *Run {
 	return r
 }
 
-func (r *Run) Rule(s string)       { r.mu.Lock(); r.rule = s; r.mu.Unlock() }
-func (r *Run) Assume(s ...string)  { r.mu.Lock(); r.assumptions = append(r.assumptions, s...); r.mu.Unlock() }
+func (r *Run) Rule(s string) { r.mu.Lock(); r.rule = s; r.mu.Unlock() }
+func (r *Run) Assume(s ...string) {
+	r.mu.Lock()
+	r.assumptions = append(r.assumptions, s...)
+	r.mu.Unlock()
+}
 func (r *Run) Set(k string, v any) { r.mu.Lock(); r.extra[k] = v; r.mu.Unlock() }
 
 // Add increments an integer counter kept in the evidence's coverage object.
@@ -88,6 +92,18 @@ func (r *Run) Add(k string, n int) {
 		r.extra[k] = n
 	}
 	r.mu.Unlock()
+}
+
+// Stage logs the end of a workload stage with its elapsed wall time (stderr) and records it.
+func (r *Run) Stage(name string) {
+	r.mu.Lock()
+	el := time.Since(r.start).Seconds()
+	if r.extra["stage_end_s"] == nil {
+		r.extra["stage_end_s"] = map[string]float64{}
+	}
+	r.extra["stage_end_s"].(map[string]float64)[name] = float64(int(el*10)) / 10
+	r.mu.Unlock()
+	fmt.Fprintf(os.Stderr, "  [%s] stage %s done at %.1fs\n", r.Prop, name, el)
 }
 
 // GetInt reads an integer counter.
